@@ -168,13 +168,41 @@ def scn_values(ctx):
     return True
 
 
+def scn_chain(ctx):
+    """'All chain lengths': acc = f_map(acc, fn) repeated n times over a head that is still pending,
+    then the head finishes (the usual way of folding steps over a future).  Every link finishes."""
+    from more_executors import futures as F
+    p = ctx.params
+    n = p["n"]
+    kind = p.get("kind", "f_map")
+    ev = ctx.ev
+    head = RecFuture(ev, "head")
+    links = []
+    acc = head
+    for _i in range(n):
+        if kind == "f_map":
+            acc = F.f_map(acc, lambda x: x + 1)
+        else:
+            acc = F.f_flat_map(acc, lambda x: F.f_return(x + 1))
+        links.append(acc)
+    entries.finish(head, "value", 0)
+    sched.vsleep_until(sched.now() + 8 * ctx.eps)
+    pending = [i for i, l in enumerate(links) if not l.done()]
+    ctx.check("future-finishes", not pending, "%s chain of %d links over a pending head: links %d..%d are still pending after the head finished" % (
+        kind, n, pending[0] if pending else -1, pending[-1] if pending else -1))
+    if not pending:
+        ctx.check("chain-value", outcome(links[-1]) == ("value", n), outcome(links[-1]))
+    ctx.reach("chain-checked")
+    return True
+
+
 ASSUMPTIONS = [
     "fixed configurations per entry point: retry(max_attempts=2, sleep=1), poll(interval=3, poll fn yields at once), throttle(count=1), timeout(5000 | 2)",
     "finish instant: derived future done <= (instant the underlying work ended) + 64*eps; fallback timers (2 s, 30 s, poll interval) are >> 64*eps",
 ]
 BOUNDS_TEXT = {"quick": "18 entry points (P<=2) + 15 two-layer stacks (P<=1 / P=0), 4-5 ways the work ends; line-level preemption (P<=1) inside retry.py / poll.py / throttle.py / timeout.py",
                "thorough": "P<=2 / P<=1"}
-MUST_REACH = {"*": ["promptness-checked", "external-cancel-ended", "values-checked"]}
+MUST_REACH = {"*": ["promptness-checked", "external-cancel-ended", "values-checked", "chain-checked"]}
 BUDGET = {"quick": 90.0, "thorough": 600.0}
 
 
@@ -186,6 +214,8 @@ def plan(tier, seed):
     for n in entries.FN_ENTRIES:
         if n != "f_apply":
             items.append(dict(scenario="lost", params=dict(entry=n, predone=True, nin=3), bounds=dict(P=1 if q else 2)))
+    for kind, n in (("f_map", 12), ("f_flat_map", 12), ("f_map", 200)):
+        items.append(dict(scenario="chain", params=dict(kind=kind, n=n), bounds=dict(P=0, max_steps=400000)))
     for n in ("f_or", "f_and", "f_zip"):
         items.append(dict(scenario="values", params=dict(entry=n, nin=2 if q else 3), bounds=dict(P=0)))
     for n in STACKS2:
